@@ -14,7 +14,7 @@
 import random
 
 from .. import tlc, tour
-from ..framework import main
+from ..framework import main, as_built
 
 CFG = {
     'A': ({'t1': ['shell'], 't2': ['shell']}, {'t1': [[1]], 't2': [[]]}),
@@ -44,22 +44,31 @@ def expected_value(p, t, replies):
 
 
 def design(ctx, names, k1_open, f5_open):
+    K1b, F5b, REG = as_built()
     for n in names:
         prog, rep = CFG[n]
         r = tour.host_run(prog, rep, False, False, invariants=INV)
-        ctx.add_tlc(r, 'AdbHost %s intended' % n)
+        ctx.add_tlc(r, 'AdbHost %s intended (put keeps every CLSE)' % n)
         if r.violations:
             raise tlc.TlcError('the intended design violates %s in config %s:\n%s' % (r.violations[0]['name'], n, '\n'.join(r.violations[0]['trace'][-2:])))
-        if k1_open or f5_open:
-            r = tour.host_run(prog, rep, k1_open, f5_open, invariants=INV)
-            ctx.add_tlc(r, 'AdbHost %s as-built' % n)
-            for v in r.violations:
-                if v['name'] in ('NoStuck', 'Deadlock') and k1_open:
-                    if ctx.violation('C06.NoStuck(design)', dict(kind='design-counterexample', config=n, steps=len(v['trace']), last_state=v['trace'][-1][:1500]), finding='K1'):
-                        return
-                else:
-                    raise tlc.TlcError('as-built design violates %s in config %s' % (v['name'], n))
-            ctx.extra.setdefault('as_built_design_violations', {})[n] = [v['name'] for v in r.violations]
+        # as built: put drops a CLSE for an unknown pair; since the repair of K1 a live-stream registry keeps it for open streams
+        r = tour.host_run(prog, rep, K1b, F5b, invariants=INV, registry=REG)
+        ctx.add_tlc(r, 'AdbHost %s as-built (DEV_K1=%s DEV_F5=%s REGISTRY=%s)' % (n, K1b, F5b, REG))
+        for v in r.violations:
+            rp = dict(kind='design-counterexample', config=n, steps=len(v['trace']), last_state=v['trace'][-1][:1500])
+            if v['name'] in ('NoStuck', 'Deadlock') and k1_open:
+                ctx.violation('C06.NoStuck(design)', rp, finding='K1')
+            else:
+                ctx.violation('C06.%s(design)' % v['name'], rp)
+                return
+        ctx.extra.setdefault('as_built_design_violations', {})[n] = [v['name'] for v in r.violations]
+    # non-vacuity: without the registry the dropping put() does get stuck (the pinned tree's design, finding K1)
+    prog, rep = CFG['A']
+    r = tour.host_run(prog, rep, True, False, invariants=INV, registry=False)
+    ctx.add_tlc(r, 'AdbHost A with the dropping put() and no registry (sanity mutation: must violate NoStuck)')
+    if not any(v['name'] in ('NoStuck', 'Deadlock') for v in r.violations):
+        raise tlc.TlcError('vacuity: the K1 design does not get stuck')
+    ctx.extra['k1_design_witness_steps'] = len(r.violations[0]['trace'])
 
 
 def liveness(ctx, n):
@@ -72,7 +81,8 @@ def liveness(ctx, n):
 
 def do_tour(ctx, n, k1, f5, modes):
     prog, rep = CFG[n]
-    r = tour.host_run(prog, rep, k1, f5, invariants=(), emit=True, deadlock=False, cached=True)
+    K1b, F5b, REG = as_built()
+    r = tour.host_run(prog, rep, K1b, F5b, invariants=(), emit=True, deadlock=False, cached=True, registry=REG)
     ctx.add_tlc(r, 'AdbHost %s as-built edge stream' % n)
     g = tour.Graph(tlc.printed(r, 'EDGE'))
     paths = g.tour()
@@ -102,9 +112,9 @@ def do_explore(ctx, rng, n, names, modes):
     for (name, mode), seeds in by.items():
         prog, rep = CFG[name]
         for seed in seeds:
-            res = tour.explore(mode, prog, rep, 1, random.Random(seed), write_yield=(seed % 3 == 0))
+            res = tour.explore(mode, prog, rep, 1, random.Random(seed), write_yield=(seed % 3 == 0), line_yield=(seed % 4 == 1))
             tr, info = res[0]
-            info.update(config=name, mode=mode, seed=seed)
+            info.update(config=name, mode=mode, seed=seed, write_yield=(seed % 3 == 0), line_yield=(seed % 4 == 1 and mode == 'sync'))
             traces.append(tr)
             infos.append(info)
     ver, r = tlc.validate_traces('TraceEnv', traces)
@@ -115,7 +125,7 @@ def do_explore(ctx, rng, n, names, modes):
         hist[v] = hist.get(v, 0) + 1
         info = infos[i]
         prog, rep = CFG[info['config']]
-        rp = dict(kind='schedule', config=info['config'], mode=info['mode'], seed=info['seed'], schedule=info['schedule'])
+        rp = dict(kind='schedule', config=info['config'], mode=info['mode'], seed=info['seed'], schedule=info['schedule'], write_yield=info['write_yield'], line_yield=info['line_yield'])
         if v == 'ok':
             # results of operations without content in the trace: same as alone
             bad = None
@@ -149,7 +159,7 @@ def replay(ctx):
     import json
     d = json.load(open(ctx.replay))['replay']
     prog, rep = CFG[d['config']]
-    tr, info = tour.replay_schedule(d['mode'], prog, rep, d['schedule'])
+    tr, info = tour.replay_schedule(d['mode'], prog, rep, d['schedule'], write_yield=d.get('write_yield', False), line_yield=d.get('line_yield', False))
     ver, r = tlc.validate_traces('TraceEnv', [tr])
     print('replayed: verdict', ver[0][2], 'results', info['results'])
     if ver[0][2] != 'ok':
@@ -170,7 +180,7 @@ def body(ctx):
         do_tour(ctx, 'C', k1, f5, ['sync', 'async'])
         do_tour(ctx, 'B', k1, f5, ['sync', 'async'])
     do_explore(ctx, rng, 700 if ctx.quick else 20000, ['A', 'B', 'C', 'D', 'F', 'G', 'I'] if ctx.quick else ['A', 'B', 'C', 'D', 'E', 'F', 'G', 'H', 'I'], ['sync', 'async'])
-    ctx.assumptions += ['preemption only at lock acquisitions and at the first bulk_read of a frame (the critical sections of the design spec)',
+    ctx.assumptions += ['preemption at lock acquisitions and at the first bulk_read of a frame (the critical sections of the design spec); in a quarter of the explored schedules of the threaded implementation also before every line of the packet store methods and of _AdbIOManager.read (sys.settrace), in a third before every bulk_write and local file read',
                         'device conforms to the Env model; it picks any ready stream next',
                         'design conformance (tour) is informative: a mismatch is reported as DESIGN-DRIFT, verdicts come only from TraceEnv clauses']
 
